@@ -178,6 +178,7 @@ type srvSpec struct {
 type origin struct {
 	spec   srvSpec
 	port   int
+	altPort int   // != 0: the port the Alt-Svc header names instead of the origin's own
 	pport  [3]int // [1]: plain CONNECT proxy, [2]: CONNECT proxy behind TLS (https:// proxy); 127.0.0.1:<pport>
 	mu     sync.Mutex
 	hellos []hello
@@ -360,7 +361,11 @@ func (o *origin) handler(listener string) http.Handler {
 			}
 		}
 		if o.spec.AltSvc && listener != "quic" {
-			w.Header().Set("Alt-Svc", fmt.Sprintf(`h3=":%d"; ma=3600`, o.port))
+			ap := o.port
+			if o.altPort != 0 {
+				ap = o.altPort // (scenario origin: advertises HTTP/3 on ANOTHER origin's port)
+			}
+			w.Header().Set("Alt-Svc", fmt.Sprintf(`h3=":%d"; ma=3600`, ap))
 		}
 		w.WriteHeader(204)
 	})
